@@ -362,6 +362,9 @@ func checkWriterCase(env *Env, c writerCase, workers int) {
 func replayC04(env *Env) {
 	cases := loadCases[writerCase](env.cases)
 	parallel(len(cases), 0, func(i int) {
+		if env.tooManyFailures() {
+			return
+		}
 		c := cases[i]
 		w := c.Workers
 		if w == 0 {
